@@ -278,6 +278,14 @@ def check(case):
                 expc[v] = expc.get(v, 0) + c
             if got != expc or sum(got.values()) != sum(counts_in.values()):
                 fail("decode_counts", f"decode_counts({counts_in}) = {got}, the image is {expc}")
+            else:
+                # discard_lower applies to the decoded totals (several strings may decode to one value)
+                top_raw, top = max(counts_in.values()), max(expc.values())
+                for thr in sorted({top, (top_raw + top) // 2 + 1, top_raw + 1, 2}):
+                    if thr <= top:
+                        got_t = qf.decode_counts(dict(counts_in), discard_lower=thr)
+                        if got_t != {k: v for k, v in expc.items() if v >= thr}:
+                            fail("decode_counts_discard", f"decode_counts({counts_in}, discard_lower={thr}) = {got_t}; decoded totals are {expc}")
         except Exception as e:
             fail("decode_counts_exception", f"{type(e).__name__}: {e}")
     return {"status": "checked", "key": key, "nontrivial": bool(n >= 2 and dependent), "evals": sp.N, "fails": fails, "counters": cnt, "cov": cov, "sample": src}
